@@ -226,8 +226,16 @@ class ImplInst:
         try:
             if name == 'send':
                 tat = {None: None, '-': None, 'P': 0, 'F': 1}[op[2]]
+                data = unhx(op[3])
+                # the documented argument types take turns (chosen by the content, so that a replay makes the same choice): bytes or
+                # bytearray payload, target address type as int or as enum member
+                k = (len(data) * 7 + (data[0] if data else 0)) % 4
+                if k == 1:
+                    data = bytearray(data)
+                if tat is not None and k == 2:
+                    tat = isotp.TargetAddressType(tat)
                 try:
-                    l.send(unhx(op[3]), tat)
+                    l.send(data, tat)
                     extra.append('send:ok')
                 except ValueError:
                     extra.append('send:valueerror')
@@ -251,7 +259,10 @@ class ImplInst:
                 except ValueError:
                     extra.append('send:valueerror')
             elif name == 'rx':
-                self.inbox.append(isotp.CanMessage(arbitration_id=int(op[2]), data=unhx(op[4]), extended_id=bool(int(op[3]))))
+                fdata = unhx(op[4])
+                if len(fdata) % 3 == 1:
+                    fdata = bytearray(fdata)        # python-can hands over bytearray, the queue-based examples bytes
+                self.inbox.append(isotp.CanMessage(arbitration_id=int(op[2]), data=fdata, extended_id=bool(int(op[3]))))
             elif name == 'proc':
                 st = l.process(do_rx=bool(int(op[2])), do_tx=bool(int(op[3])))
                 extra.append('stats:%d,%d,%d,%d' % (st.received, st.received_processed, st.sent, st.frame_received))
